@@ -4,6 +4,7 @@ import (
 	"encoding/json"
 	"fmt"
 	"math/bits"
+	"os"
 	"sort"
 	"strings"
 
@@ -668,6 +669,94 @@ func c07Run(c *mc.Ctx) {
 		}
 	}
 	c.Done(fmt.Sprintf("table sizes: every n in 0..300 and floor(0.75*2^b)+{-1,0,1} for b in 9..%d under 4 formula hashes (identity, all-collide, stride = slots, bit-reversed), all present keys and n absent keys probed", maxB))
+	// (5) more than 4 GiB of key bytes in one load (thorough; skipped when less than 24 GiB of memory are available)
+	if th && c.Mine() {
+		if g := memAvailableGiB(); g >= 24 {
+			c.Distinct("huge")
+			c07Huge(c, c07Case{Kind: "int", Formula: "huge-keys", Real: true})
+			c.Done("one load holding more than 4 GiB of key bytes (5 keys of about 1 GiB, prefixes of one another, then short keys beyond the 4 GiB mark): Len, Get of every key, absent probes, Item enumeration")
+		} else {
+			c.Count(fmt.Sprintf("load-with-more-than-4GiB-of-key-bytes-skipped-(%d-GiB-of-memory-available,-24-wanted)", g), 1)
+		}
+	}
+}
+
+// c07Huge: one load whose keys hold more than 4 GiB in total (five keys of about 1 GiB that are prefixes of one another and
+// share one backing string, then two short keys whose bytes lie beyond the 4 GiB mark), real hash.  Needs about 7 GiB
+// of memory for about 20 s; thorough tier only, and only when the machine has the memory to spare.
+func c07Huge(c *mc.Ctx, k c07Case) {
+	c.Eval(1)
+	bad := func(class, format string, a ...interface{}) {
+		c.Violate("huge", "C07|huge|"+class, "one load with more than 4 GiB of key bytes: "+fmt.Sprintf(format, a...), k)
+	}
+	strmap.VerifSetHash(nil, nil)
+	pi := mc.Try(func() {
+		const G = 1 << 30
+		backing := strings.Repeat("0123456789abcdef", G/16+1)
+		var kk []string
+		var vv []int
+		for i := 0; i < 5; i++ {
+			kk = append(kk, backing[:G-i])
+			vv = append(vv, 100+i)
+		}
+		kk = append(kk, "tail", "t2", "")
+		vv = append(vv, 7, 8, 9)
+		m := strmap.New[int]()
+		if err := m.LoadFromSlice(kk, vv); err != nil {
+			bad("load-error", "%v", err)
+			return
+		}
+		if m.Len() != len(kk) {
+			bad("len", "Len() = %d, want %d", m.Len(), len(kk))
+			return
+		}
+		for i, key := range kk {
+			if v, ok := m.Get(key); !ok || v != vv[i] {
+				bad("loaded-key-missing", "Get(key #%d of %d bytes) = (%d, %v), want (%d, true)", i, len(key), v, ok, vv[i])
+				return
+			}
+		}
+		for _, key := range []string{backing[:G-5], backing[:G+1], "tai", "tail2", "t"} {
+			if v, ok := m.Get(key); ok || v != 0 {
+				bad("absent-key-found", "Get(absent key of %d bytes) = (%d, %v)", len(key), v, ok)
+				return
+			}
+		}
+		seen := map[int]bool{}
+		for i := 0; i < m.Len(); i++ {
+			key, v := m.Item(i)
+			j := -1
+			for x := range kk {
+				if vv[x] == v {
+					j = x
+				}
+			}
+			if j < 0 || len(key) != len(kk[j]) || key != kk[j] || seen[v] {
+				bad("items", "Item(%d) = (key of %d bytes, %d) is not one of the loaded pairs", i, len(key), v)
+				return
+			}
+			seen[v] = true
+		}
+	})
+	if pi != nil {
+		bad("panic:"+pi.Class, "panic: %s at %s", pi.Msg, pi.Frame)
+	}
+}
+
+// memAvailableGiB reads MemAvailable from /proc/meminfo (0 if unknown).
+func memAvailableGiB() int {
+	b, err := os.ReadFile("/proc/meminfo")
+	if err != nil {
+		return 0
+	}
+	for _, l := range strings.Split(string(b), "\n") {
+		if strings.HasPrefix(l, "MemAvailable:") {
+			var kb int
+			fmt.Sscanf(strings.TrimSpace(strings.TrimPrefix(l, "MemAvailable:")), "%d", &kb)
+			return kb >> 20
+		}
+	}
+	return 0
 }
 
 func c07Formula(c *mc.Ctx, k c07Case) {
@@ -742,6 +831,10 @@ func init() {
 		},
 		Replay: func(c *mc.Ctx, sub string, raw json.RawMessage) {
 			replayAs(raw, func(k c07Case) {
+				if k.Formula == "huge-keys" {
+					c07Huge(c, k)
+					return
+				}
 				if k.Formula != "" {
 					c07Formula(c, k)
 					return
